@@ -42,7 +42,8 @@ structure Cfg where
   pmDesc : Option RE
   amPmDesc : Option RE
 
-/-- `str.lower()` one code point at a time (the table is a parameter, as in RTV.Preprocess.lowerWith) -/
+/-- `str.lower()` one code point at a time (the table is a parameter, as in RTV.Preprocess.lowerWith; CPython's
+context-dependent final-sigma rule for U+03A3 is not modelled) -/
 def lower (lowerC : Nat → Str) (s : Str) : Str := s.flatMap lowerC
 
 /-- `RegExpUtility.exact_match(pattern, source, True)`: `pattern.search(source)`, success when the match is as long as
